@@ -420,4 +420,4 @@ Definition validate_zip_bytesio (lib_ops : list sop) (k : nat) (st : stream) : s
 Definition stream_site := (str * str * Z * str)%type.
 Definition readonly_method (m : str) : bool :=
   mem_str m [s "seek"; s "tell"; s "read"; s "getvalue"; s "readable"; s "seekable"; s "readline";
-             s "read1"; s "readinto"; s "peek"; s "closed"; s "getbuffer_ro"].
+             s "read1"; s "peek"; s "closed"; s "getbuffer().nbytes"].
